@@ -1,6 +1,6 @@
 ----------------------------- MODULE Isa8080_Gen -----------------------------
 EXTENDS Isa8080
-CONSTANTS Cpu, K, Salt
+CONSTANTS Cpu, K, Salt, Step
 VARIABLES form, ops, pc
 INSTANCE IsaGen
 ASSUME TableSane
